@@ -96,3 +96,7 @@ mod tests {
         assert_eq!(ringitem.block_ids.len() as u64, 0);
     }
 }
+
+#[cfg(all(test, saito_verif))]
+#[path = "/verif/replay/in_crate/ringitem.rs"]
+mod verif_replay;
